@@ -87,7 +87,7 @@ fn v4_block(ta: usize, path: &[usize]) -> (String, u8) {
 
 /// The `n`-th /24 inside the node's block; `inside_kid`: inside the block of
 /// child `kid` instead of outside all children.
-fn v4_roa(ta: usize, path: &[usize], n: usize, inside_kid: Option<usize>) -> String {
+pub fn v4_roa(ta: usize, path: &[usize], n: usize, inside_kid: Option<usize>) -> String {
     let a = 10 + ta;
     match (path, inside_kid) {
         ([], None) => format!("{a}.{}.{}.0/24", 64 + n, n),
